@@ -45,6 +45,16 @@ def generate():
     if len(docs) != 1:
         raise Unsupported("KickMap::updateSM definition")
     body = docs[0]
+    # this fragment extracts the statements it knows; anything ELSE in the function (a further branch, an update of an
+    # index or weight after the fact) must make it fail: the statement inventory of updateSM is pinned
+    inv = {k: len(find(body, lambda m, k=k: m.get("kind") == k, [])) for k in
+           ("IfStmt", "ForStmt", "CompoundAssignOperator", "ConditionalOperator", "CallExpr", "CXXMemberCallExpr", "WhileStmt", "SwitchStmt")}
+    inv["assign"] = len(find(body, lambda m: m.get("kind") == "BinaryOperator" and m.get("opcode") == "=", []))
+    inv["unary"] = sorted(u.get("opcode") for u in find(body, lambda m: m.get("kind") == "UnaryOperator", []))
+    want = {"IfStmt": 3, "ForStmt": 3, "CompoundAssignOperator": 0, "ConditionalOperator": 1, "CallExpr": 2, "CXXMemberCallExpr": 1,
+            "WhileStmt": 0, "SwitchStmt": 0, "assign": 8, "unary": ["&", "++", "++", "++"]}
+    if inv != want:
+        raise Unsupported("statement inventory of KickMap::updateSM changed: %r (expected %r)" % (inv, want))
     decls = {v["name"]: v for v in find(body, lambda m: m.get("kind") == "VarDecl", [])}
     # poffs = _meshsize_kd/2 + _offset[i]
     if "poffs" not in decls:
